@@ -57,11 +57,13 @@ def cases(tier, seed):
         fh = [[1], [1, 2], [1, 2, 3], [2], [1, 3], [1, 2, 3, 4], [2, 3], [3]][int(rng.integers(0, 8))]
         wl = int(rng.integers(10, 15))
         n = int(rng.integers(wl + max(fh) + 4, 44))
-        cvk = ["sliding", "expanding", "single"][int(rng.integers(0, 3))]
+        cvk = ["sliding", "expanding", "single", "cutoff"][int(rng.integers(0, 4))]
         step = int(rng.integers(2, 6))
         cv = {"sliding": ["sliding", {"fh": fh, "window_length": wl, "step_length": step}],
               "expanding": ["expanding", {"fh": fh, "initial_window": wl, "step_length": step}],
-              "single": ["single", {"fh": fh, "window_length": wl}]}[cvk]
+              "single": ["single", {"fh": fh, "window_length": wl}],
+              # given cutoffs (positions in the series, increasing), every candidate is scored at exactly these
+              "cutoff": ["cutoff", {"fh": fh, "window_length": wl, "cutoffs": sorted(set(wl + k_ * max(1, min(wl, (n - max(fh) - 2 - wl) // 2)) for k_ in range(3)))}]}[cvk]      # spaced by at most the window: no holes between windows
         yield {"base": b, "cv": cv, "n": n, "off": int(rng.choice([0, 9, -15, 2000])), "scoring": METRICS[int(rng.integers(0, len(METRICS)))],
                "refit": bool(rng.random() < 0.7), "n_jobs": [None, None, 2][int(rng.integers(0, 3))],
                "search": "grid" if rng.random() < 0.7 else "random", "n_iter": int(rng.integers(2, 6)), "rs": int(rng.integers(0, 1000)),
